@@ -401,7 +401,7 @@ func runCheck(prop, tier, only string, trace bool, workers int, noReplay bool, s
 			MaxPaths: orInt(tc.MaxPaths, 2_000_000), MaxConcretize: orInt(h.MaxConc, 600), MaxSymIndex: orInt(h.MaxSymIndex, 1024),
 			AllocLimit: orInt(h.AllocLimit, 1<<22), SolverTimeout: 30000, SolverKind: solverKind, Workers: workers,
 			MapOrderAny: h.MapOrderAny, EagerGo: h.EagerGo, UnboundedChans: h.UnboundedCh, Trace: trace, PanicsOK: h.PanicsOK,
-			SkipInit: map[string]bool{}, Known: known, AutoMerge: !h.NoAutoMerge, MaxMergePaths: 4096, MaxViolPerID: 1,
+			SkipInit: map[string]bool{}, Known: known, AutoMerge: !h.NoAutoMerge || os.Getenv("SYMGO_FORCE_AUTOMERGE") != "", MaxMergePaths: 4096, MaxViolPerID: 1,
 			Params: tc.Params, Havoc: map[string]bool{}, RegionMerge: h.RegionMerge && os.Getenv("SYMGO_NOREGION") == "",
 		}
 		for _, hv := range h.Havoc {
